@@ -27,7 +27,7 @@ struct SampleRun {
             else if (kind == "fr") { Bn v = arg == "r-1" ? Bn::sub(K().r, Bn(1)) : arg == "r" ? K().r : arg == "r+1" ? Bn::add(K().r, Bn(1)) : arg == "0" ? Bn(0) : arg == "r-1hi" ? Bn::add(Bn::sub(K().r, Bn(1)), Bn(1).shl(255)) : Bn(1); push(32, v); }
             else if (kind == "fq") { Bn v = arg == "q-1" ? Bn::sub(K().q, Bn(1)) : arg == "q" ? K().q : arg == "q+1" ? Bn::add(K().q, Bn(1)) : arg == "0" ? Bn(0) : arg == "q-1hi" ? Bn::add(Bn::sub(K().q, Bn(1)), Bn(7).shl(381)) : Bn(1); push(48, v); }
             else if (kind == "digit") push(8, arg == "xm1" ? Bn::sub(K().absx, Bn(1)) : arg == "x" ? K().absx : Bn(0));
-            else if (kind == "tuple") tuple(arg == "r" ? K().r : arg == "r+1" ? Bn::add(K().r, Bn(1)) : arg == "r-1" ? Bn::sub(K().r, Bn(1)) : arg == "0" ? Bn(0) : arg == "1" ? Bn(1) : arg == "x" ? K().absx : Bn(2));
+            else if (kind == "tuple") tuple(arg == "r" ? K().r : arg == "r+1" ? Bn::add(K().r, Bn(1)) : arg == "r-1" ? Bn::sub(K().r, Bn(1)) : arg == "0" ? Bn(0) : arg == "1" ? Bn(1) : arg == "x" ? K().absx : arg.compare(0, 3, "xd:") == 0 ? value_of_code(arg) : Bn(2));
             else if (kind == "carry") { Bn d[4]; if (carry_tuple(n, (uint64_t) env.step * 131 + env.lib_calls, d)) { for (int i = 0; i < 4; i++) push(8, d[i]); env.count("probe:random_exponent_digits_with_carry_through_all_ones_limb"); } }
             else if (kind == "torsion1" || kind == "torsion2") { int g = kind == "torsion1" ? 1 : 2; std::vector<uint8_t> raw; if (torsion_candidate_raw(R, g, (uint64_t) n, raw)) { env.stream.push(48, std::vector<uint8_t>(raw.begin(), raw.begin() + 48)); if (g == 2) env.stream.push(48, std::vector<uint8_t>(raw.begin() + 48, raw.end())); env.stream.push(1, std::vector<uint8_t>(1, (uint8_t) (n & 1))); } }
             else if (kind == "nostorm1" || kind == "nostorm2") {   // n consecutive candidates that are field elements but not x coordinates of curve points
@@ -201,8 +201,10 @@ struct SampleRun {
 
     void op_hashs(const Op& op) {
         std::vector<uint8_t> h = unhex(op.s.empty() ? "" : op.s[0]); h.resize(32);
-        MBytes hm(h.data(), h.size(), (size_t) (1 + (env.lib_calls + (uint64_t) env.step) % 15));   // digests are byte strings: they arrive at any address
-        Frv out; env.lib_calls += 2; R.jv_zp_from_hash(view, out.b, hm.p);
+        MBytes hm(h.data(), h.size(), (size_t) ((env.lib_calls + (uint64_t) env.step) % 16));   // digests are byte strings: they arrive at any address (16-byte aligned ones included)
+        Buf h32; if ((env.lib_calls + (uint64_t) env.step) % 5 == 0) { h32.alloc(64 + 32); }   // ... and one in five at a 32-byte boundary, where a vectorised byte reversal is eligible
+        uint8_t* hp = hm.p; if (h32.p) { hp = (uint8_t*) (((uintptr_t) h32.p + 31) & ~(uintptr_t) 31); memcpy(hp, h.data(), 32); env.count("probe:digest_at_32_byte_boundary"); }
+        Frv out; env.lib_calls += 2; R.jv_zp_from_hash(view, out.b, hp);
         Bn in = Bn::from_be(h.data(), 32); Bn want = Bn::mod(Bn::mod(in, Bn(1).shl(255)), K().r);
         env.check(Bn::from_le(out.b, 32) == want, "C10", "hash-to-scalar:value", "zp_from_hash(" + hex(h.data(), 32) + ") != (input with top bit cleared) mod r");
         Frv x; for (int i = 0; i < 32; i++) x.b[i] = h[31 - (size_t) i];
@@ -287,7 +289,7 @@ struct SampleScenario : Scenario {
         auto kn = [&](const char* k, int64_t d) { auto it = knobs.find(k); return it == knobs.end() ? d : it->second; };
         int focus = (int) kn("focus", 0);       // 7: GT ops, 10: samplers and hashes
         int n = r.range(4, 24);
-        static const char* f8[] = {"storm8:3", "storm8:7", "storm8:40", "digit:xm1", "digit:x", "tuple:r", "tuple:r+1", "tuple:r-1", "tuple:0", "tuple:1", "tuple:x", "const:255", "const:0", "carry:0", "carry:1"};
+        static const char* f8[] = {"storm8:3", "storm8:7", "storm8:40", "digit:xm1", "digit:x", "tuple:r", "tuple:r+1", "tuple:r-1", "tuple:0", "tuple:1", "tuple:x", "const:255", "const:0", "carry:0", "carry:1", "tuple:xd:m1:m1:7:0", "tuple:xd:m1:m1:0:9", "tuple:xd:m1:m1:m1:m1", "tuple:xd:m1:m1:1:0", "tuple:xd:m1:m2:m1:0"};
         static const char* f32[] = {"storm32:2", "storm32:9", "storm32:60", "fr:r-1", "fr:r", "fr:r+1", "fr:0", "fr:r-1hi", "const:255", "const:0", "const:127"};
         static const char* f48[] = {"storm48:2", "storm48:11", "fq:q-1", "fq:q", "fq:q+1", "fq:0", "fq:q-1hi", "sign:0", "sign:1", "sign:254", "const:255", "const:0", "torsion1:3", "torsion2:5", "torsion1:8", "torsion2:12", "nostorm1:40", "nostorm2:25", "nostorm1:2000"};
         auto faults = [&](const char** tab, size_t nt) { std::vector<std::string> v; if (r.chance(1, 2)) return v; int k = r.range(1, 3); for (int i = 0; i < k; i++) v.push_back(tab[r.below(nt)]); return v; };
@@ -296,9 +298,9 @@ struct SampleScenario : Scenario {
             int k = r.range(0, 9); int64_t ss = (int64_t) (r.next() >> 1);
             if (focus == 7) k = r.chance(3, 4) ? r.range(4, 6) : k;
             if (focus == 10) k = r.chance(3, 4) ? (r.chance(1, 2) ? r.range(0, 3) : r.range(7, 9)) : k;
-            if (k <= 1) { int which = r.range(0, 3); p.ops.push_back({"ZP", {ss, which}, which == 2 ? faults(f8, 15) : which == 3 ? faults(f48, 7) : faults(f32, 11)}); }
+            if (k <= 1) { int which = r.range(0, 3); p.ops.push_back({"ZP", {ss, which}, which == 2 ? faults(f8, 20) : which == 3 ? faults(f48, 7) : faults(f32, 11)}); }
             else if (k <= 3) p.ops.push_back({"GEN", {ss, r.range(0, 1), r.range(0, 1)}, faults(f48, r.chance(1, 6) ? 19 : 18)});
-            else if (k <= 5) p.ops.push_back({"GTR", {ss, (int64_t) r.below(8), r.chance(1, 4), r.chance(1, 3)}, faults(f8, 15)});
+            else if (k <= 5) p.ops.push_back({"GTR", {ss, (int64_t) r.below(8), r.chance(1, 4), r.chance(1, 3)}, faults(f8, 20)});
             else if (k == 6) p.ops.push_back({"GTPOW", {(int64_t) r.below(8), r.chance(1, 3) ? 1 + 2 * (int64_t) r.below(3) : 0}, {r.chance(1, 3) ? "x" + rhex(r, 32) : std::string(kcodes[r.below(28)])}});
             else if (k == 7) {
                 std::string h = rhex(r, 32); int m = r.range(0, 7);
